@@ -62,6 +62,16 @@ def gen_case(run, i):
     nr = 3 if style_r == 'rgb' and rng.random() < 0.8 else rng.randint(1, 8)
     src = gen_bands(rng, ns, style_s)
     ref = gen_bands(rng, nr, style_r)
+    if i % 7 == 3:
+        # an RGB(A) file described by its colour interpretation only, the alpha band NOT last, against a reference whose wavelength
+        # tags are near the standard red / green / blue values in another order
+        src = [dict(alpha=False, mask=False, ci=c, wl=None, descr=None) for c in rng.sample('rgb', 3)]
+        src.insert(rng.randrange(0, 3), dict(alpha=True, mask=False, ci='o', wl=None, descr=None))
+        ref = [dict(alpha=False, mask=False, ci='o', wl=Fraction(w, 100) + Fraction(rng.choice([0, 1, -1]), 64), descr=None)
+               for w in rng.sample([65, 56, 48], 3)]
+        if rng.random() < 0.5:
+            ref.append(dict(alpha=False, mask=False, ci='o', wl=Fraction(86, 100), descr=None))
+        style_s, style_r = 'rgb', 'full'
     mode = rng.choice(['near', 'near', 'random'])
     if mode == 'near' and style_s in ('full', 'partial') and style_r in ('full', 'partial'):
         # make reference wavelengths near copies of source ones (within / just outside tolerance)
@@ -131,7 +141,15 @@ def impl_match(case):
 def eff_wl(bands, bi):
     """effective wavelength of band bi (tag, else RGB default as the code assigns) - for the tolerance predicate only
     bands with an explicit tag are considered"""
-    return bands[bi - 1]['wl']
+    b = bands[bi - 1]
+    if b['wl'] is not None:
+        return b['wl']
+    # the documented default: in a file with exactly three candidate bands a red / green / blue colour interpretation stands for the
+    # standard wavelength (the "assume R, G, B in file order" fall-back is an assumption, not metadata: not counted here)
+    cand = [x for x in bands if not x['alpha'] and not x['mask']]
+    if len(cand) == 3 and not b['alpha'] and not b['mask'] and b['ci'] in ('r', 'g', 'b'):
+        return {'r': Fraction(65, 100), 'g': Fraction(56, 100), 'b': Fraction(48, 100)}[b['ci']]
+    return None
 
 
 def predicates(run, case, jc, sr):
